@@ -3,7 +3,7 @@ import fcntl, hashlib, json, os, re, shutil, subprocess, sys, time
 
 VERIF = os.path.dirname(os.path.dirname(os.path.abspath(__file__)))
 REPO = os.environ.get('VERIF_REPO', '/repo')
-LEAN = os.path.join(VERIF, 'lean')
+LEAN = os.environ.get('VERIF_LEAN', os.path.join(VERIF, 'lean'))   # a scratch copy of the Lean project (development: parallel mutant runs)
 CACHE = os.path.join(VERIF, '.cache')
 LEAN_INC = '/opt/veriftools/lean-4.33.0-linux/include'
 LIB_SRCS = ['url.cpp', 'url_idna.cpp', 'url_ip.cpp', 'url_percent_encode.cpp', 'url_search_params.cpp', 'url_utf.cpp']
@@ -110,7 +110,7 @@ def build_oracle():
 def lake_build(targets, timeout=3000):
     ok, o = build_oracle()
     if not ok: return 1, o
-    with Lock('lake'):
+    with Lock('lake_' + hashlib.sha256(LEAN.encode()).hexdigest()[:8]):
         return sh(['lake', 'build'] + targets, cwd=LEAN, timeout=timeout)
 
 def lean_driver():
